@@ -5,6 +5,7 @@ import (
 	"crypto/sha256"
 	"crypto/sha512"
 	"encoding/hex"
+	pathpkg "path"
 	"sort"
 	"strings"
 )
@@ -39,8 +40,9 @@ type WalkOpt struct {
 	// instead of the name path under which it is reached. The statement leaves open which of the two
 	// paths counts; callers compare the results under both readings and only judge cases where they agree.
 	ExcludeByLocation bool
-	Strip     []string
-	Paths     []string // relative to the base directory
+	Strip             []string
+	Paths             []string // relative to the base directory, or to Cwd below it
+	Cwd               string   // directory (relative to the base) the recording process stands in; "" = the base
 }
 
 type walker struct {
@@ -184,7 +186,7 @@ func (w *walker) visit(path string, n *Node, canon []string) {
 		}
 		sort.Strings(names)
 		for _, name := range names {
-			w.visit(path+"/"+name, n.child(name), append(append([]string{}, canon...), name))
+			w.visit(pathJoin(path, name), n.child(name), append(append([]string{}, canon...), name))
 		}
 		w.stack = w.stack[:len(w.stack)-1]
 	case 'l':
@@ -222,6 +224,9 @@ func Walk(base *Node, opt WalkOpt) (map[string]map[string]string, string) {
 	for _, p := range opt.Paths {
 		budget := 40
 		comps := strings.Split(p, "/")
+		if opt.Cwd != "" {
+			comps = append(strings.Split(opt.Cwd, "/"), comps...)
+		}
 		n, canon, ok := w.resolve(comps, false, &budget)
 		if !ok {
 			return nil, "missing-path"
@@ -233,3 +238,6 @@ func Walk(base *Node, opt WalkOpt) (map[string]map[string]string, string) {
 	}
 	return w.out, ""
 }
+
+// pathJoin names a directory entry the way filepath.Walk does (cleaned join).
+func pathJoin(dir, name string) string { return pathpkg.Join(dir, name) }
